@@ -17,9 +17,11 @@ so there is no text face.
        and libm sensors), the inherited defaults, dict / JSON round trips, and compare_CpoR /
        HoRT / SoR / GoRT of Nasa / Shomate species carrying a StatMech model.
 """
+import contextlib
 import json
 import math
 import random
+import re
 import threading
 
 from harness import core
@@ -36,7 +38,8 @@ ATTRS = ('A_st', 'geometry', 'symmetrynumber', 'inertia', 'etotal', 'vib_energie
 CTOR_KEYS = ('class', 'name', 'phase', 'elements', 'model', 'misc_models', 'A_st', 'geometry', 'symmetrynumber',
              'inertia', 'vib_wavenumbers', 'potentialenergy')
 MODES = {0: 0.0, 1: 450.0, 2: 1700.0, 3: 3200.0}
-BASE_MOM = {'linear': [1.7e-46], 'nonlinear': [1.1e-46, 2.3e-46, 3.7e-46]}
+# equal base moments: the known max-moment deviation (X08-F2) then is an exact power of two too and TLC names it
+BASE_MOM = {'linear': [1.7e-46], 'nonlinear': [2.3e-46, 2.3e-46, 2.3e-46]}
 A0 = 1.3e-19
 ELEMENTS = ('H', 'C', 'N', 'O', 'Pt', 'Cu', 'Ni', 'S')
 DERIVED_CMP = ('CpoR', 'HoRT', 'SoR', 'GoRT')
@@ -44,6 +47,39 @@ DERIVED_CMP = ('CpoR', 'HoRT', 'SoR', 'GoRT')
 
 def _err(ex):
     return '%s: %s' % (type(ex).__name__, str(ex)[:160])
+
+
+def errkind(ex):
+    """discrete kind of an exception, used by the specification to recognise the known deviations exactly"""
+    m = str(ex)
+    if isinstance(ex, AttributeError) and "module 'numpy' has no attribute 'product'" in m:
+        return 'np.product'
+    mm = re.search(r"object has no attribute '(\w+)'", m)
+    if isinstance(ex, AttributeError) and mm:
+        return 'AttributeError:' + mm.group(1)
+    if isinstance(ex, TypeError) and "'NoneType' object is not iterable" in m:
+        return 'TypeError:NoneIterable'
+    return type(ex).__name__
+
+
+class shim_np_product:
+    """Known finding X08-F1 blocks the construction of every species with a real vibration on NumPy >= 2.  After the
+    finding has been RECORDED for a case, the case is continued with `numpy.product = numpy.prod` provided inside this
+    driver process only (never in the library), so that the remaining clauses are still exercised.  Every event and
+    the evidence (`shim_np_product`) say when the shim was active."""
+
+    def __enter__(self):
+        import numpy as np
+        self.np = np
+        self.active = not hasattr(np, 'product')
+        if self.active:
+            np.product = np.prod
+        return self
+
+    def __exit__(self, *a):
+        if self.active:
+            del self.np.product
+        return False
 
 
 def _aslist(x):
@@ -112,11 +148,16 @@ def exec_beh(case):
     from pmutt.io.json import pmuttEncoder, json_to_pmutt
     mism = []
     obj, d = None, None
+    info = {'mism': mism, 'shim': False}
 
     def expect(step):
         o = step['obj']
         return {'ok': o['ok'], 'attrs': sorted(o['attrs']), 'rotZero': o['rotZero'], 'qrotE': o['qrotE'],
                 'qtransE': o['qtransE'], 'modes': list(o['modes'])}
+
+    def report(k, step, field, got, want, clause='ReplayState', err=None):
+        mism.append({'clause': clause, 'step': k, 'act': step['act'], 'field': field, 'got': got, 'want': want,
+                     'err': err, 'inp': step['inp'], 'shim': info['shim']})
 
     def compare(k, step, got):
         want = expect(step)
@@ -124,42 +165,65 @@ def exec_beh(case):
             want = {'ok': False}
         for f in [x for x in ('ok', 'attrs', 'rotZero', 'qrotE', 'qtransE', 'modes') if x in want]:
             if got.get(f) != want[f]:
-                mism.append({'step': k, 'act': step['act'], 'field': f, 'got': got.get(f), 'want': want[f],
-                             'err': got.get('err'), 'inp': step['inp']})
-                break
+                clause = 'ReplayState'
+                # known finding X08-F2: exactly the value TLC computes for the max-moment rule
+                if (f == 'qrotE' and step['inp']['geom'] == 'nonlinear' and got.get(f) == step['obj']['qrotEMax']):
+                    clause = 'ReplayState_KnownMaxMoment'
+                report(k, step, f, got.get(f), want[f], clause, got.get('err'))
+                if clause == 'ReplayState':
+                    break
 
-    for k, step in enumerate(case['steps']):
-        inp = step['inp']
-        try:
-            if step['act'] == 'construct':
-                d = None
-                obj = None
-                obj = Zacros(**beh_kwargs(inp))
-            elif step['act'] == 'to_dict':
-                d = obj.to_dict() if obj is not None else None
-                isdict = isinstance(d, dict)
-                keys = sorted(set(d) & set(CTOR_KEYS)) if isdict else []
-                if isdict != step['isdict'] or keys != sorted(step['keys']):
-                    mism.append({'step': k, 'act': 'to_dict', 'field': 'keys' if isdict else 'isdict',
-                                 'got': keys if isdict else repr(d)[:60], 'want': sorted(step['keys']), 'inp': inp})
-                if not isdict:
+    with contextlib.ExitStack() as stack:
+        for k, step in enumerate(case['steps']):
+            inp = step['inp']
+            try:
+                if step['act'] == 'construct':
                     d = None
-                continue
-            else:
-                if d is None:
-                    continue                               # already reported at to_dict
-                if case['via'] == 'json':
-                    obj = json.loads(json.dumps(d, cls=pmuttEncoder), object_hook=json_to_pmutt)
+                    obj = None
+                    try:
+                        obj = Zacros(**beh_kwargs(inp))
+                    except AttributeError as ex:
+                        if errkind(ex) != 'np.product' or inp['modes'] == [0] or info['shim']:
+                            raise
+                        # known finding X08-F1: recorded, then the case continues under the shim
+                        report(k, step, 'ok', False, True, 'ReplayState_KnownNumpyProduct', _err(ex))
+                        info['shim'] = stack.enter_context(shim_np_product()).active
+                        obj = Zacros(**beh_kwargs(inp))
+                elif step['act'] == 'to_dict':
+                    try:
+                        d = obj.to_dict() if obj is not None else None
+                    except Exception as ex:
+                        kind = errkind(ex)
+                        known = kind in ('TypeError:NoneIterable', 'AttributeError:q_vib', 'AttributeError:I3',
+                                         'AttributeError:MW')
+                        report(k, step, 'isdict', kind, True,
+                               'ReplayState_KnownToDict' if known else 'ReplayState', _err(ex))
+                        d = None
+                        continue
+                    isdict = isinstance(d, dict)
+                    keys = sorted(set(d) & set(CTOR_KEYS)) if isdict else []
+                    if isdict != step['isdict'] or keys != sorted(step['keys']):
+                        report(k, step, 'keys' if isdict else 'isdict', keys if isdict else repr(d)[:60],
+                               sorted(step['keys']),
+                               'ReplayState_KnownToDict' if (d is None and obj is not None) else 'ReplayState')
+                    if not isdict:
+                        d = None
+                    continue
                 else:
-                    obj = Zacros.from_dict(d)
-            compare(k, step, beh_project(obj, inp, single_thetas()))
-        except core.MachineryError:
-            raise
-        except Exception as ex:
-            compare(k, step, {'ok': False, 'err': _err(ex)})
-            if step['act'] != 'construct':
-                obj = None
-    return [], {'mism': mism}
+                    if d is None:
+                        continue                               # already reported at to_dict
+                    if case['via'] == 'json':
+                        obj = json.loads(json.dumps(d, cls=pmuttEncoder), object_hook=json_to_pmutt)
+                    else:
+                        obj = Zacros.from_dict(d)
+                compare(k, step, beh_project(obj, inp, single_thetas()))
+            except core.MachineryError:
+                raise
+            except Exception as ex:
+                compare(k, step, {'ok': False, 'err': _err(ex)})
+                if step['act'] != 'construct':
+                    obj = None
+    return [], info
 
 
 # --------------------------------------------------------------------------
@@ -179,7 +243,7 @@ def draw_species(rnd):
     sp = {'name': 'sp%d' % rnd.randrange(1000), 'phase': phase, 'els': els, 'wn': wn,
           'E': rnd.choice([0.0, rnd.uniform(-60, 5)]),
           'A': None if rnd.random() < 0.25 else 10 ** rnd.uniform(-20, -18),
-          'geom': None, 'sigma': None, 'inertia': None, 'mol': None,
+          'geom': None, 'sigma': None, 'inertia': None, 'mol': None, 'model': rnd.random() < 0.15,
           'weights': {s: float(c.atomic_weight[s]) for s in els}}
     if phase == 'G':
         sp['sigma'] = rnd.choice([1, 1, 2, 3, 4, 6, 12])
@@ -203,6 +267,12 @@ def species_kwargs(sp):
     kw = {'name': sp['name'], 'phase': sp['phase'], 'elements': dict(sp['els']), 'vib_wavenumbers': list(sp['wn']),
           'potentialenergy': sp['E'], 'A_st': sp['A']}
     amom = []
+    if sp.get('model'):
+        # a species may carry the statistical-mechanical model it was derived from
+        from pmutt.statmech import StatMech, presets
+        kw['model'] = StatMech(name=sp['name'], molecular_weight=28.01, vib_wavenumbers=[2170.], potentialenergy=sp['E'],
+                               spin=0., geometry='linear', rot_temperatures=[2.78], symmetrynumber=1,
+                               **presets['idealgas'])
     if sp['phase'] == 'G':
         kw['symmetrynumber'] = sp['sigma']
         if sp['mol']:
@@ -232,7 +302,7 @@ def obj_record(z):
     return {'name': str(z.name), 'phase': str(z.phase), 'geom': str(z.geometry),
             'els': sorted([k, int(v)] for k, v in (z.elements or {}).items()),
             'misc': [type(m).__name__ for m in misc] if misc is not None else ['<none>'],
-            'model': type(z.model).__name__,
+            'model': type(z.model).__name__, 'inertiaNone': z.inertia is None,
             'A': _d2(z.A_st), 'sigma': _d2(z.symmetrynumber), 'E': _d2(z.etotal),
             'eps': [to_dec2(x) for x in _aslist(z.vib_energies)], 'theta': [to_dec2(x) for x in _aslist(z.theta)],
             'zpe': to_dec2(z.zpe), 'hasq': has('q_vib'), 'qvib': _d2(getattr(z, 'q_vib', None)),
@@ -241,11 +311,11 @@ def obj_record(z):
             'qtrans': _d2(getattr(z, 'q_trans2D', None))}
 
 
-def construct_event(sp0):
+def construct_event(sp0, shim=False):
     from pmutt.empirical.zacros import Zacros
     kw, sp, amom = species_kwargs(sp0)
     wn = sp['wn']
-    ev = {'ev': 'construct', 'raised': False, 'finite': True,
+    ev = {'ev': 'construct', 'raised': False, 'finite': True, 'shim': bool(shim), 'errkind': '',
           'in': {'phase': sp['phase'], 'geom': sp['geom'] or 'none', 'sigma': to_dec(sp['sigma'] or 0),
                  'inertia': [to_dec(x) for x in (sp['inertia'] or [])], 'amom': [to_dec(x) for x in amom],
                  'fromAtoms': bool(sp['mol']), 'hasA': sp['A'] is not None, 'A': to_dec(sp['A'] or 0.0),
@@ -261,7 +331,7 @@ def construct_event(sp0):
     try:
         z = Zacros(**kw)
     except Exception as ex:
-        ev.update(raised=True, err=_err(ex))
+        ev.update(raised=True, err=_err(ex), errkind=errkind(ex))
         return None, ev
     has = lambda a: hasattr(z, a)
     vals = {'eps': _aslist(z.vib_energies), 'theta': _aslist(z.theta), 'zpe': [float(z.zpe)],
@@ -308,10 +378,10 @@ def defaults_event(z, rnd):
     return ev
 
 
-def roundtrip_event(z, via):
+def roundtrip_event(z, via, shim=False):
     from pmutt.empirical.zacros import Zacros
     from pmutt.io.json import pmuttEncoder, json_to_pmutt
-    ev = {'ev': 'roundtrip', 'via': via, 'dictRaised': False, 'isdict': False, 'jsonable': False, 'cls': '',
+    ev = {'ev': 'roundtrip', 'via': via, 'shim': bool(shim), 'errkind': '', 'retnone': False, 'dictRaised': False, 'isdict': False, 'jsonable': False, 'cls': '',
           'keys': [], 'loadRaised': False, 'isobj': False, 'eqdict': False, 'eq': False}
     before = obj_record(z)
     ev['before'] = before
@@ -319,10 +389,11 @@ def roundtrip_event(z, via):
     try:
         d = z.to_dict()
     except Exception as ex:
-        ev.update(dictRaised=True, err=_err(ex))
+        ev.update(dictRaised=True, err=_err(ex), errkind=errkind(ex))
         return ev
     if not isinstance(d, dict):
         ev['err'] = 'to_dict returned %r' % (d,)
+        ev['retnone'] = d is None
         return ev
     ev.update(isdict=True, cls=str(d.get('class')), keys=sorted(str(k) for k in d))
     try:
@@ -358,12 +429,20 @@ def exec_species(case):
     rnd = random.Random(case['cseed'])
     events = []
     sp = case.get('species') or draw_species(rnd)
-    z, ev = construct_event(sp)
-    events.append(ev)
-    if z is not None and ev['finite']:
-        events.append(defaults_event(z, rnd))
-        events.append(roundtrip_event(z, case['via']))
-    return events, {'species': {k: v for k, v in sp.items() if k != 'weights'}}
+    info = {'species': {k: v for k, v in sp.items() if k != 'weights'}, 'shim': False}
+    with contextlib.ExitStack() as stack:
+        z, ev = construct_event(sp)
+        events.append(ev)
+        if ev['raised'] and ev['errkind'] == 'np.product' and any(sp['wn']):
+            # known finding X08-F1 is on record (the event above); continue this case under the shim
+            info['shim'] = stack.enter_context(shim_np_product()).active
+            if info['shim']:
+                z, ev = construct_event(sp, shim=True)
+                events.append(ev)
+        if z is not None and ev['finite']:
+            events.append(defaults_event(z, rnd))
+            events.append(roundtrip_event(z, case['via'], shim=info['shim']))
+    return events, info
 
 
 # --------------------------------------------------------------------------
@@ -404,7 +483,7 @@ def exec_compare(case):
         Targ = np.array(sorted(rnd.uniform(T_low, T_high) for _ in range(case['n'])))
     events = []
     for which in DERIVED_CMP:
-        ev = {'ev': 'compare', 'which': which, 'fam': case['fam'], 'raised': False, 'finite': True,
+        ev = {'ev': 'compare', 'which': which, 'fam': case['fam'], 'nmodes': nm, 'raised': False, 'finite': True,
               'given': Targ is not None, 'Targ': [to_dec2(t) for t in (_aslist(Targ) if Targ is not None else [])],
               'Tlow': to_dec2(T_low), 'Thigh': to_dec2(T_high)}
         try:
@@ -485,7 +564,7 @@ def beh_case(pv, via):
                               'ast': inp['ast'], 'modes': list(inp['modes'])},
                       'obj': {'ok': s['obj']['ok'], 'attrs': sorted(s['obj']['attrs']), 'rotZero': s['obj']['rotZero'],
                               'qrotE': s['obj']['qrotE'], 'qtransE': s['obj']['qtransE'],
-                              'modes': list(s['obj']['modes'])}})
+                              'qrotEMax': s['obj']['qrotEMax'], 'modes': list(s['obj']['modes'])}})
     return {'kind': 'beh', 'via': via, 'steps': steps}
 
 
@@ -505,7 +584,12 @@ def run(ctx):
         prints = run_models(ctx)
         ctx.coverage['tlc_behaviours'] = len(prints)
         rnd.shuffle(prints)
-        prints = prints[:ctx.pick(1200, len(prints))]
+        if ctx.quick:
+            # stratified sample: every behaviour that reloads, 300 that stop after to_dict, the rest constructions
+            fd = [p for p in prints if '"from_dict"' in p]
+            td = [p for p in prints if '"to_dict"' in p and '"from_dict"' not in p]
+            cc = [p for p in prints if '"to_dict"' not in p]
+            prints = fd + td[:300] + cc[:max(0, 1200 - len(fd) - 300)]
         if not ctx.quick:
             rs = core.run_tlc('MC_Zacros', 'MC_Zacros_sim', workers=1, timeout=1500,
                               extra=['-simulate', 'num=1500', '-depth', '8', '-seed', str(ctx.seed + 11)])
@@ -532,18 +616,23 @@ def run(ctx):
         if case['kind'] == 'beh':
             if len(case['steps']) > 1:
                 ctx.nontrivial(['beh', case['via'], [(s['act'], s['inp']) for s in case['steps']]])
+            done = set()
             for m in info.get('mism', []):
+                if m['clause'] in done:
+                    continue
+                done.add(m['clause'])
                 t = dict(tags, act=m['act'], field=m['field'], phase=m['inp']['phase'], geom=m['inp']['geom'],
                          vib='zero' if m['inp']['modes'] == [0] else 'real',
-                         err=(m.get('err') or '').split(':')[0])
-                ctx.violation('ReplayState', case, tags=t, detail=m)
-                break
+                         err=(m.get('err') or '').split(':')[0], shim=m['shim'])
+                ctx.violation(m['clause'], case, tags=t, detail=m)
         elif case['kind'] == 'species':
             sp = info.get('species', {})
             if sp.get('phase') == 'G' or sp.get('A') is not None or any(sp.get('wn', [])):
                 ctx.nontrivial(['species', case['cseed'], case['via']])
         else:
             ctx.nontrivial(['compare', case['fam'], case['nmodes'], case['tmode'], case['n'], case['cseed']])
+        if info.get('shim'):
+            ctx.count('shim_np_product')
         traces.append((tid, events))
         if tid % 997 == 0:
             ctx.sample({k: v for k, v in case.items() if k != 'steps'} if case['kind'] == 'beh' else case)
@@ -593,6 +682,7 @@ def run(ctx):
                         broadcast=case['tmode'] not in ('scalar',) and (case['nmodes'] == 1 or (
                             50 if case['tmode'] == 'default' else case['n']) == case['nmodes']))
         tags['err'] = (ev.get('err') or '').split(':')[0]
+        tags['shim'] = bool(ev.get('shim'))
         key = (tid, clause, ev['ev'], ev.get('which'))
         if key in seen:
             continue
@@ -605,6 +695,10 @@ def run(ctx):
                'held by the specification; atomic weights are read from the table pmutt.constants.atomic_weight')
     ctx.assume('power-of-two scaling of sigma, the moments and the area commutes exactly with IEEE arithmetic (no '
                'underflow for moments >= 1e-46 kg m2)')
+    if ctx.coverage.get('shim_np_product'):
+        ctx.notes.append('shim_np_product: in %d case(s) the constructor raised the known AttributeError (numpy.product, '
+                         'finding X08-F1); after recording it the case was continued with numpy.product = numpy.prod '
+                         'provided inside the driver process only' % ctx.coverage['shim_np_product'])
     ctx.assume('ase.Atoms.get_moments_of_inertia is trusted for species built from atoms')
 
 
